@@ -109,6 +109,8 @@ func VH_C17_concurrent(caseID int) {
 		vAssume(hb > 0x20)
 		vAssume(hb < 0x7f)
 		c.Set("X-Kept", string([]byte{'k', hb}))
+		// a kept header may be repeated
+		c.Response().Header.Add("X-Kept", string([]byte{'m', hb}))
 		c.Set("X-Dropped", "d"+strconv.Itoa(mine))
 		vYield("handler")
 		execs[key]++
@@ -139,7 +141,10 @@ func VH_C17_concurrent(caseID int) {
 			app.Handler()(fctx)
 			res[k].status = fctx.Response.StatusCode()
 			res[k].body = string(fctx.Response.Body())
-			res[k].hdr = string(fctx.Response.Header.Peek("X-Kept"))
+			res[k].hdr = ""
+			for _, v := range fctx.Response.Header.PeekAll("X-Kept") {
+				res[k].hdr += string(v) + "|"
+			}
 			res[k].isError = res[k].status == 500
 		})
 	}
